@@ -2175,6 +2175,11 @@ class Measurement:
             return NotImplemented
 
         measurand = self.measurand**exponent
+        if exponent == 0:
+            # x**0 is the constant 1: its slope is zero for every x, also where
+            # x**(0 - 1) is undefined
+            return Measurement(measurand, 0)
+
         uncertainty = math.sqrt(
             _pow(
                 _mul(
